@@ -207,6 +207,11 @@ def gen_stage(rng, profile=None):
     for s in states:
         rhs[s["name"]] = rand_mat(rng, s["shape"], shares[s["name"]], lv_x, depth=2)
     spec["rhs"] = rhs
+    if len(states) > 1 and rng.random() < 0.4:
+        # set_der / set_next need not be called in the order the states were declared
+        order = [s["name"] for s in states]
+        rng.shuffle(order)
+        spec["rhs_order"] = order
     spec["alg"] = []
     for s in algs:
         for e in elems(s["name"], s["shape"]):
@@ -413,6 +418,12 @@ def gen_constraint(rng, spec, cid, grids=("control",), allow_offsets=True, allow
             b = bound()
             c["lb"].append(["-", b, ["c", rnd(rng, 0.1, 2.0)]])
             c["ub"].append(["+", b, ["c", rnd(rng, 0.1, 2.0)]])
+        if n >= 2 and rng.random() < 0.3:
+            # one-sided elements inside a vector-valued two-sided constraint: some (not all) entries of one bound
+            # vector are infinite
+            side, sign = rng.choice([("lb", -1), ("ub", 1)])
+            for i in rng.sample(range(n), rng.randint(1, n - 1)):
+                c[side][i] = ["inf", sign]
     else:
         c["rhs"] = [bound() for _ in range(n)]
     if grid != "integrator_roots":
